@@ -515,7 +515,7 @@ fn random_script(sf: Fmt, rng: &mut Rng) -> Vec<RawInstr> {
     }).collect()
 }
 
-fn raw_mode(n: usize, rng: &mut Rng, stats: &mut Stats) {
+fn raw_mode(n: usize, quick: bool, rng: &mut Rng, stats: &mut Stats) {
     for &fmt in &FMTS {
         // the template is chosen by the file format that contains this instruction format
         let layouts: &[Layout] = match fmt { Fmt::AnmV0 | Fmt::AnmV2 | Fmt::Msg | Fmt::Ecl10 => &[Layout::Next, Layout::Last], _ => &[Layout::Last] };
@@ -527,7 +527,8 @@ fn raw_mode(n: usize, rng: &mut Rng, stats: &mut Stats) {
                     println!("ORACLE-FAIL\tc03 harness\ttemplate {} {:?} tests {} instead\t", fmt.name(), game, sf.name());
                     continue;
                 }
-                if gi == 0 {
+                // quick tier: the boundary cases once per format (first game, first layout); thorough: both layouts
+                if gi == 0 && (!quick || layout == layouts[0]) {
                     for (l, focus) in focus_cases(sf, rng, layout == layouts[0]) { run_script(&t, &l, focus, stats); }
                 }
                 let k = if gi == 0 { n } else { n / 4 };
@@ -1029,7 +1030,7 @@ fn main() {
     let mut rng = Rng::new(seed_from_env());
     let mut stats = Stats::new();
     match args.get(1).map(|s| s.as_str()) {
-        Some("raw") => { let n = args.get(2).and_then(|s| s.parse().ok()).unwrap_or(20); raw_mode(n, &mut rng, &mut stats); }
+        Some("raw") => { let n = args.get(2).and_then(|s| s.parse().ok()).unwrap_or(20); raw_mode(n, args.get(3).map_or(false, |s| s == "quick"), &mut rng, &mut stats); }
         Some("src") => { let n = args.get(2).and_then(|s| s.parse().ok()).unwrap_or(10); src_mode(n, &mut rng, &mut stats); }
         Some("rawtext") => {
             // c03 rawtext <fmt> <game> <Next|Last> <spec>
